@@ -175,7 +175,20 @@ def well_conditioned(e, V, xs, H):
     try:
         xs2 = [float(a) * (1 + 1e-9) + 1e-12 for a in xs]
         H2 = oracle_hessian(e, V, xs2)
-        return H2 is not None and all(oracle.close(a, b, rtol=1e-4, atol=1e-6) for r, s in zip(H, H2) for a, b in zip(r, s))
+        if H2 is None or not all(oracle.close(a, b, rtol=1e-4, atol=1e-9) for r, s in zip(H, H2) for a, b in zip(r, s)):
+            return False
+        # second reference: central differences of the dual-number gradient; where the two references disagree, double
+        # precision is the limit and the point is no witness
+        point = {v.name: float(a) for v, a in zip(V, xs)}
+        for j, vj in enumerate(V):
+            h = 1e-5 * max(1.0, abs(point[vj.name]))
+            pp, pm = dict(point), dict(point)
+            pp[vj.name] += h; pm[vj.name] -= h
+            for i, vi in enumerate(V):
+                fd = (oracle.ref_grad(e, pp, vi.name) - oracle.ref_grad(e, pm, vi.name)) / (2 * h)
+                if not oracle.close(H[i][j], fd, rtol=1e-3, atol=1e-8):
+                    return False
+        return True
     except Exception:  # noqa: BLE001
         return False
 
